@@ -189,7 +189,7 @@ func (ephH) Execute(c *Case, res *Result) {
 				if op.Who != who {
 					continue
 				}
-				time.Sleep(time.Duration(op.GapMs) * time.Millisecond)
+				time.Sleep(time.Duration(op.GapMs)*time.Millisecond + offGrid(who))
 				var expiry <-chan struct{}
 				var unregister func()
 				var err error
@@ -199,7 +199,7 @@ func (ephH) Execute(c *Case, res *Result) {
 						break
 					}
 					res.Probes["register_refused"]++
-					time.Sleep(time.Second)
+					time.Sleep(time.Second + offGrid(who))
 				}
 				if err != nil {
 					continue
@@ -213,8 +213,8 @@ func (ephH) Execute(c *Case, res *Result) {
 					viol("registered-but-not-owner", cfg.Backend, fmt.Sprintf("op#%d: registrant %d was told it registered %s but the store says the owner is %d", i, who, path, o))
 				}
 				var others []int
-				for o, b := range believes {
-					if b && o != who {
+				for o := 0; o < cfg.Registrants; o++ {
+					if believes[o] && o != who {
 						others = append(others, o)
 					}
 				}
@@ -239,7 +239,7 @@ func (ephH) Execute(c *Case, res *Result) {
 					case <-stop:
 					}
 				}()
-				hold := time.Duration(op.HoldMs) * time.Millisecond
+				hold := time.Duration(op.HoldMs)*time.Millisecond + 4*offGrid(who)
 				var lapseAt time.Time
 				switch op.Event {
 				case "pause":
